@@ -141,10 +141,23 @@ def probe_repeated(nsub, case=0):
         lambda: (ex.stepper.Diffusion(2, 2.0, 8, 0.05, diffusivity=0.03), 1, 2, 8, 0.05),
         lambda: (ex.stepper.Burgers(2, 3.0, 7, 0.02, diffusivity=0.05), 2, 2, 7, 0.02),
         lambda: (ex.stepper.Diffusion(3, 2.0, 6, 0.05, diffusivity=0.03), 1, 3, 6, 0.05),
+        # cases 7-9: EVEN grids, odd-order symbols, every mode kept by the dealiasing (fraction 1), NYQUIST-FREE states:
+        # the nonlinear term never populates the Nyquist bin, so the Fourier-space sub-stepping is the physical loop
+        lambda: (ex.stepper.KortewegDeVries(1, 20.0, 16, 0.01, dealiasing_fraction=1.0), 1, 1, 16, 0.01),
+        lambda: (ex.stepper.generic.GeneralConvectionStepper(1, 3.0, 16, 0.01, linear_coefficients=(0.0, -0.4, 0.02), dealiasing_fraction=1.0), 1, 1, 16, 0.01),
+        lambda: (ex.stepper.KortewegDeVries(2, 20.0, 8, 0.01, single_channel=True, dealiasing_fraction=1.0), 1, 2, 8, 0.01),
     ][case]
     st, C, D, N, dt = mk()
     rep = ex.RepeatedStepper(st, nsub)
     u0 = jnp.asarray(rng.normal(size=(C,) + (N,) * D) * 0.3) if case else jnp.sin(2 * jnp.pi * jnp.arange(15) / 15)[None, :]
+    if case >= 7:
+        kk = np.abs(np.fft.fftfreq(N, 1 / N))
+        keep = np.ones((N,) * D, dtype=bool)
+        for d_ in range(D):
+            sh = [1] * D
+            sh[d_] = N
+            keep &= (kk.reshape(sh) != N // 2)
+        u0 = jnp.asarray(np.stack([np.real(np.fft.ifftn(np.fft.fftn(np.asarray(u0)[c]) * keep)) for c in range(C)]))
     u = u0
     for _ in range(nsub):
         u = st(u)
@@ -246,11 +259,11 @@ def oracle(ctx, deep):
                 fails.append({"key": f"C14:rollout:include_init={incl}", "what": f"rollout/repeat differ from the naive loop at n={n}, include_init={incl}",
                               "probe": "naive", "args": {"n": n, "incl": incl}, "observed": r})
     for nsub in ([1, 3] if not deep else [1, 2, 3, 5]):
-        for case in range(7):
+        for case in range(10):
             r = probe_repeated(nsub, case)
             ctx.count(("oracle_repeated", nsub, case))
             if not r["ok"]:
-                fails.append({"key": "C14:repeated", "what": f"RepeatedStepper({r['stepper']} D={r['D']} N={r['N']}, {nsub}) differs from {nsub} inner steps by {r['err']:.2e} on a white-noise state",
+                fails.append({"key": "C14:repeated", "what": f"RepeatedStepper({r['stepper']} D={r['D']} N={r['N']}, {nsub}) differs from {nsub} inner steps by {r['err']:.2e} on a {'white-noise' if case < 7 else 'Nyquist-free'} state",
                               "probe": "repeated", "args": {"nsub": nsub, "case": case}, "observed": r})
                 break
     r = probe_forced()
